@@ -7,6 +7,7 @@
 #define protected public
 #include "CppUTest/TestHarness.h"
 #include "CppUTest/TestRegistry.h"
+#include "CppUTest/TestFilter.h"
 #include "CppUTest/TestOutput.h"
 #include "CppUTest/TeamCityTestOutput.h"
 #include "CppUTest/TestResult.h"
@@ -70,6 +71,14 @@ void h_set_test(int i, int ignored, const char* group, const char* name, const c
 void h_set_failure(int i, const char* file, unsigned long line, const char* message)
 {
     run_[i].fails_ = 1; run_[i].failFile_ = file; run_[i].failLine_ = line; run_[i].failMessage_ = message;
+}
+// test #i is filtered out of the run by a strict, inverted name filter on its (special) name
+void h_filter_out(int i)
+{
+    static TestFilter f("zz");
+    f.strictMatching(); f.invertMatching();
+    chosen_[i]->setTestName("zz");
+    reg_->setNameFilters(&f);
 }
 void h_run(int n)
 {
